@@ -39,7 +39,8 @@ class Settings:
     stress_sleep = 0.0  # upper bound of random sleep in probes when not controlled
     valve_s = 120.0  # safety valve: a parked probe waits at most this long
     settle_s = 60.0
-    step_limit = 0  # scheduler loop iterations allowed per execution (0 = unlimited)
+    step_limit = 0  # scheduler loop iterations allowed per execution (0 = use default_step_limit)
+    default_step_limit = 50000  # far above any finite DAG of the workloads (<= ~60 nodes): only a spin reaches it
     seed = 0
     inline_release = True
 
@@ -605,10 +606,11 @@ def _install_step_counter():
             if ex is not None:
                 ex.steps += 1
                 REACH["STEP"] += 1
-                if Settings.step_limit and ex.steps > Settings.step_limit and not ex.closed:
-                    ev("SPIN", token=ex.token, steps=ex.steps, limit=Settings.step_limit)
+                limit = Settings.step_limit or Settings.default_step_limit
+                if ex.steps > limit and not ex.closed:
+                    ev("SPIN", token=ex.token, steps=ex.steps, limit=limit)
                     ex.close()
-                    raise SpinDetected("scheduler loop iterations %d > %d" % (ex.steps, Settings.step_limit))
+                    raise SpinDetected("scheduler loop iterations %d > %d" % (ex.steps, limit))
 
     mon.register_callback(tool, mon.events.JUMP, on_jump)
     import types
